@@ -485,6 +485,9 @@ def menu_lists():
         ("every", a, [("s", 1, None)], VB),
         ("pop", a, []), ("pop", a, [i_(0)]), ("pop", c, [i_(0)]), ("remove", a, [i_(0)]), ("remove", a, [("s", 0, 1)]), ("remove", a, [i_(0), i_(0)]),
         ("swap", a, [], b, []), ("swap", a, [i_(0)], a, [i_(1)]), ("swap", a, [i_(0)], b, [i_(0)]), ("swap", a, [i_(0)], c, []),
+        # one slot named twice with different spellings (a no-op), and through an alias of the same list
+        ("swap", a, [i_(1)], a, [i_(-1)]), ("swap", a, [i_(-2)], a, [i_(0)]), ("swap", a, [i_(0), i_(0)], a, [i_(0), i_(-2)]), ("swap", a, [i_(0)], a, [i_(0)]),
+        ("swap", a, [i_(-1)], b, [i_(-1)]),
         ("consume", c, a), ("update", b, a, 0, lit(I(5), "5")), ("call", c, a), ("for", a), ("tuple", a, b, b, a),
     ]
     return m
@@ -505,6 +508,7 @@ def menu_dicts():
         ("op", c, [k_(2)], "append", lit(I(6), "6")), ("op", a, [k_(1)], "++", lit(L(I(6)), "[6]")), ("op", a, [k_(1), i_(0)], "+", ONE),
         ("remove", a, [k_(1)]), ("remove", a, [k_(1), i_(0)]), ("remove", b, [k_(2)]), ("pop", a, [k_(1)]),
         ("swap", a, [], b, []), ("swap", a, [k_(1)], a, [k_(2)]), ("swap", a, [k_(1)], b, [k_(2)]),
+        ("swap", a, [k_(1)], a, [k_(1)]), ("swap", a, [k_(1), i_(0)], a, [k_(1), i_(-1)]),
         ("consume", c, a), ("for", a), ("assign", b, [], ("list", VA, VC)), ("assign", b, [i_(0), k_(1), i_(0)], lit(I(2), "2")),
         ("op", b, [i_(1), k_(7)], "append", ONE),
     ]
@@ -522,6 +526,7 @@ def menu_flat(kindname):
         ("assign", b, [], VA), ("assign", a, [], VB), ("assign", c, [], ("list", VA, VA)), ("assign", a, [i_(0)], v1), ("assign", a, [i_(1)], v1),
         ("assign", a, [i_(0)], v2), ("assign", b, [i_(-1)], v1), ("assign", c, [i_(0), i_(0)], v1), ("assign", c, [i_(1)], VB), cat,
         ("swap", a, [], b, []), ("swap", a, [i_(0)], a, [i_(1)]), ("swap", a, [i_(0)], b, [i_(0)]), ("swap", c, [i_(0)], a, []),
+        ("swap", a, [i_(2)], a, [i_(-1)]), ("swap", c, [i_(0)], c, [i_(-2)]),
         ("consume", c, a), ("for", a), ("assign", a, [i_(5)], v1), ("tuple", a, b, b, a), ("every", c, [("s", 0, 2), i_(0)], v1),
         ("op", c, [], "append", VA),
     ]
@@ -538,7 +543,8 @@ def menu_struct():
         ("assign", a, [f_(1)], lit(I(9), "9")), ("assign", a, [f_(0), i_(0)], SEVEN), ("assign", a, [f_(1)], lit(["f", "4000000000000000"], "2.0")),
         ("assign", a, [f_(0)], lit(L(["f", "3ff0000000000000"]), "[1.0]")), ("assign", c, [i_(0), f_(1)], lit(["f", "4000000000000000"], "2.0")), ("assign", a, [f_(1)], VA), ("assign", a, [f_(0)], VB),
         ("op", c, [i_(0), f_(0)], "append", ONE), ("assign", c, [i_(1), f_(1)], L8), ("op", a, [f_(1)], "+", ONE), ("op", b, [f_(0)], "++", lit(L(I(6)), "[6]")),
-        ("swap", a, [], b, []), ("swap", a, [f_(0)], a, [f_(1)]), ("swap", a, [f_(0)], b, [f_(0)]), ("consume", c, a), ("pop", a, [f_(0)]),
+        ("swap", a, [], b, []), ("swap", a, [f_(0)], a, [f_(1)]), ("swap", a, [f_(0)], b, [f_(0)]), ("swap", a, [f_(0), i_(0)], a, [f_(0), i_(-1)]),
+        ("swap", c, [i_(0), f_(1)], c, [i_(-2), f_(1)]), ("consume", c, a), ("pop", a, [f_(0)]),
         ("remove", a, [f_(0), i_(0)]), ("every", c, [("s", 0, 2), f_(1)], SEVEN), ("tuple", a, b, b, a),
     ]
 
